@@ -35,7 +35,7 @@ def run(tier, seed):
                 it["res"] = False
                 return k + 1
         return 0
-    seeds = [seed * 1000 + i for i in range(2 if quick else 10)]
+    seeds = [seed * 1000 + i for i in range(2 if quick else 30)]
     vlib.trace_rounds(c, "Trace_Slurm", "slurm", seeds, 1500 if quick else 10000, mut)
     c.cov["rule"] = ("cases = every state of the filter-list machine (all present/absent criteria combinations over 6 prefixes in 2 families, "
                      "2 ASNs, 2 SKIs) x every payload item; non-trivial = at least one filter; traces = random files with full-size values")
